@@ -51,6 +51,8 @@ def shrink_items(items, pred):
 
 
 def run(ctx):
+    from checks import isolate
+    isolate.enter(ctx)
     ok, problems, infos = True, [], []
     # parser level (Props/C01.v), code generation (Props/C01b.v, correspondence in checks/C02.py), composition (Props/C01c.v)
     for props, thms in ((PROPS, THEOREMS), (PROPS_B, THEOREMS_B), (PROPS_C, THEOREMS_C)):
@@ -120,6 +122,8 @@ def run(ctx):
 
 
 def replay(ctx, path):
+    from checks import isolate
+    isolate.enter(ctx)
     obj = json.load(open(path))
     print(json.dumps(obj, indent=1, ensure_ascii=False))
     s = obj.get("failing_input") or (obj.get("first_disagreeing_input") or {}).get("input")
